@@ -14,8 +14,8 @@ structure HState where
   /-- the k-th ProcessInbound (0-based) reports a storage error -/
   failAt : Option Nat := none
   nProcessed : Nat := 0
-  /-- verdict of the k-th `Message.ReadFrom` (true = error); default ok -/
-  parseErr : List Bool := []
+  /-- verdict of the k-th `Message.ReadFrom`: 0 ok, 1 error, 2 error of the io.EOF class; default ok -/
+  parseErr : List Nat := []
   nParsed : Nat := 0
   /-- password callback result per localFW index -/
   passwords : List (Bytes × Bool) := []
@@ -37,7 +37,9 @@ def hstep (h : HState) : Call → HState × Reply
   | .getInboundAnswers ps =>
     let as := ps.map fun p => h.answerFor p.mid
     (h, .answers (match h.batchedShort with | some k => as.take k | none => as))
-  | .parseMessage _ => ({ h with nParsed := h.nParsed + 1 }, .err (h.parseErr.getD h.nParsed false))
+  | .parseMessage _ =>
+    let v := h.parseErr.getD h.nParsed 0
+    ({ h with nParsed := h.nParsed + 1 }, .parsed (v != 0) (v == 2))
   | .processInbound data =>
     let fail := h.failAt = some h.nProcessed
     ({ h with nProcessed := h.nProcessed + 1, inbox := if fail then h.inbox else h.inbox ++ [data] }, .err fail)
